@@ -3,11 +3,8 @@ From SC Require Import Lib.Prelude Lib.Int Lib.Host Model.Math Model.Fungible Mo
   Proofs.FungibleBasics Proofs.FungibleExec Proofs.FungibleAllow Proofs.FungibleInv Proofs.FungibleObsFacts
   Run.C02 Proofs.C02Model.
 
-Lemma nodupb_NoDup l : nodupb l = true -> NoDup l.
-Proof.
-  induction l as [|a r IH]; cbn; [constructor|]. intros H. apply andb_true_iff in H. destruct H as [H1 H2].
-  constructor; auto. intros Hi. apply mem_In in Hi. rewrite Hi in H1. discriminate.
-Qed.
+Lemma call_addrs2_incl cl a : In a (call_addrs2 cl) -> In a (call_addrs_all cl).
+Proof. destruct cl; cbn; tauto. Qed.
 
 Lemma forallb_ext_in {A} (f g : A -> bool) l : (forall x, In x l -> f x = g x) -> forallb f l = forallb g l.
 Proof. induction l; cbn; intros H; auto. rewrite H, IHl; auto. Qed.
@@ -44,15 +41,26 @@ Section Ext.
     reflexivity.
   Qed.
 
-  Lemma debit_ok_ext cl v a : (forall x, In x (call_addrs2 cl) -> In x univ) ->
-    debit_ok pv cv cl v a = debit_ok pv' cv' cl v a.
+  Lemma debit_le_ext a amt : In a univ -> debit_le pv cv a amt = debit_le pv' cv' a amt.
   Proof.
-    intros Wf. destruct cl; cbn [debit_ok]; try reflexivity.
+    intros H. unfold debit_le. destruct AP as (_ & _ & Bp & _). destruct AC as (_ & _ & Bc & _).
+    rewrite (Bp a H), (Bc a H). reflexivity.
+  Qed.
+
+  Lemma debit_ok_ext rwa cl v a : In a univ -> (forall x, In x (call_addrs2 cl) -> In x univ) ->
+    debit_ok rwa pv cv cl v a = debit_ok rwa pv' cv' cl v a.
+  Proof.
+    intros Ha Wf. destruct cl; cbn [debit_ok]; try reflexivity; rewrite ?(debit_le_ext a _ Ha); try reflexivity.
     - rewrite spent_ok_ext; auto. apply in_pairs; apply Wf; cbn; auto.
     - rewrite spent_ok_ext; auto. apply in_pairs; apply Wf; cbn; auto.
     - rewrite spent_ok_ext; auto. apply in_pairs; apply Wf; cbn; auto.
     - rewrite spent_ok_ext; auto. apply in_pairs; apply Wf; cbn; auto.
   Qed.
+
+  Lemma debit_ok_ext_all rwa cl a : In a univ -> (forall x, In x (call_addrs2 cl) -> In x univ) ->
+    forall out, match out with Ok v => debit_ok rwa pv cv cl v a | Fail => false end =
+                match out with Ok v => debit_ok rwa pv' cv' cl v a | Fail => false end.
+  Proof. intros H Wf [v|]; auto. apply debit_ok_ext; auto. Qed.
 
   Lemma allow_change_ok_ext cl v p : In p (pairs univ) ->
     allow_change_ok pv cv cl v p = allow_change_ok pv' cv' cl v p.
@@ -63,11 +71,12 @@ Section Ext.
       try (destruct (N.eqb operator owner); [reflexivity|]); rewrite spent_ok_ext; auto.
   Qed.
 
-  Lemma chk_debit_ext cl out a : In a univ -> (forall x, In x (call_addrs2 cl) -> In x univ) ->
-    chk_debit pv cv cl out a = chk_debit pv' cv' cl out a.
+  Lemma chk_debit_ext rwa cl out a : In a univ -> (forall x, In x (call_addrs2 cl) -> In x univ) ->
+    chk_debit rwa pv cv cl out a = chk_debit rwa pv' cv' cl out a.
   Proof.
-    intros H Wf. unfold chk_debit. destruct AP as (_ & _ & Bp & _). destruct AC as (_ & _ & Bc & _).
-    rewrite (Bp a H), (Bc a H). destruct out; auto. rewrite (debit_ok_ext cl a0 a Wf). reflexivity.
+    intros H Wf. unfold chk_debit. rewrite (debit_ok_ext_all rwa cl a H Wf).
+    destruct AP as (_ & _ & Bp & _). destruct AC as (_ & _ & Bc & _).
+    rewrite (Bp a H), (Bc a H). reflexivity.
   Qed.
   Lemma chk_change_ext cl out p : In p (pairs univ) -> chk_change pv cv cl out p = chk_change pv' cv' cl out p.
   Proof.
@@ -91,11 +100,11 @@ Section Ext.
     - apply forallb_ext_in. intros p H. apply same_al_ext. exact H.
   Qed.
 
-  Lemma c02_checks_ext g cl out : (forall x, In x (call_addrs2 cl) -> In x univ) ->
-    c02_checks univ g pv cv cl out = c02_checks univ g pv' cv' cl out.
+  Lemma c02_checks_ext rwa g cl out : (forall x, In x (call_addrs2 cl) -> In x univ) ->
+    c02_checks rwa univ g pv cv cl out = c02_checks rwa univ g pv' cv' cl out.
   Proof.
     intros Wf. unfold c02_checks. rewrite same_bal_allow_ext.
-    rewrite (forallb_ext_in (chk_debit pv cv cl out) (chk_debit pv' cv' cl out)) by (intros; apply chk_debit_ext; auto).
+    rewrite (forallb_ext_in (chk_debit rwa pv cv cl out) (chk_debit rwa pv' cv' cl out)) by (intros; apply chk_debit_ext; auto).
     rewrite (forallb_ext_in (chk_change pv cv cl out) (chk_change pv' cv' cl out)) by (intros; apply chk_change_ext; auto).
     rewrite (forallb_ext_in (chk_cap g cv) (chk_cap g cv')) by (intros; apply chk_cap_ext; auto).
     rewrite (forallb_ext_in (chk_live cv) (chk_live cv')) by (intros; apply chk_live_ext; auto).
@@ -110,47 +119,40 @@ Proof.
   - intros p H. cbn. apply allow_of_observe. exact H.
 Qed.
 
-Lemma vagree_init univ start : vagree univ (obs_view (obs0 start univ)) (state_view (init start)).
-Proof.
-  repeat split.
-  - intros a H. cbn. unfold bal_of, obs0. cbn. rewrite (getd_map_in (fun _ => 0)); auto.
-  - intros p _. cbn. rewrite allow_obs_init. reflexivity.
-Qed.
-
 Section Run.
   Variable c : cfg.
   Variable univ : list addr.
   Hypothesis W : wf_host (c_host c).
 
   Record K (m : m02) (s : state) : Prop := {
+    k_prev : n_prev m = observe c univ s;
     k_view : vagree univ (obs_view (n_prev m)) (state_view s);
-    k_extra : o_extra (n_prev m) = [] \/ o_extra (n_prev m) = extras c univ s;
     k_core : core_inv (tk s);
     k_ghost : G (n_ghost m) s
   }.
 
-  Lemma K_init start : K (m02_init start univ) (init start).
-  Proof. constructor; cbn; [apply vagree_init|left; reflexivity|apply core_inv_tok0|apply G_init]. Qed.
+  Lemma K_init start : K (m02_init (observe c univ (init start))) (init start).
+  Proof. constructor; cbn [n_prev n_ghost m02_init]; [reflexivity|apply vagree_observe|apply core_inv_tok0|apply G_init]. Qed.
 
   Lemma all_true {A} (f : A -> bool) l : (forall x, f x = true) -> forallb f l = true.
   Proof. intros H. apply forallb_forall. intros x _. apply H. Qed.
 
   Lemma c02_item_model m s cl :
-    K m s -> forallb (fun a => mem a univ) (call_addrs2 cl) = true ->
+    K m s -> forallb (fun a => mem a univ) (call_addrs_all cl) = true ->
     let '(s', out, evs) := step c s cl in
-    exists m', c02_item univ m (cl, out, evs, observe c univ s') = (true, m') /\ K m' s'.
+    exists m', c02_item (is_rwa c) univ m (cl, out, evs, observe c univ s') = (true, m') /\ K m' s'.
   Proof.
-    intros [K1 KX K2 K3] Wc.
+    intros [KP K1 K2 K3] Wc.
     assert (Wf : forall x, In x (call_addrs2 cl) -> In x univ).
-    { intros a Ha. rewrite forallb_forall in Wc. apply mem_In. apply Wc. exact Ha. }
-    unfold step. destruct (exec c s cl) as [[[s1 v] evs]|] eqn:E.
-    - rewrite (observe_w_hist c univ s1).
+    { intros a Ha. rewrite forallb_forall in Wc. apply mem_In. apply Wc. apply call_addrs2_incl. exact Ha. }
+    pose proof (common_ok_model c univ s cl W K2 Wc) as CM. rewrite <- KP in CM.
+    unfold step in *. destruct (exec c s cl) as [[[s1 v] evs]|] eqn:E.
+    - rewrite (observe_w_hist c univ s1) in *.
       destruct (model_step_ok c W (n_ghost m) s cl s1 v evs K2 E) as (D & Ch & G'' & Sg). pose proof (G'' K3) as G'.
       destruct (exec_balances _ _ _ _ _ _ W K2 E) as (_ & _ & C1).
       eexists. split.
-      + unfold c02_item. f_equal.
-        rewrite (advance_keeps_extras_model c univ s cl s1 v evs (n_prev m) E KX), andb_true_r.
-        rewrite (c02_checks_ext univ _ _ _ _ K1 (vagree_observe c univ s1) _ _ _ Wf).
+      + unfold c02_item. f_equal. rewrite CM. cbn [andb].
+        rewrite (c02_checks_ext univ _ _ _ _ K1 (vagree_observe c univ s1) _ _ _ _ Wf).
         unfold c02_checks.
         rewrite (all_true _ _ D), (all_true _ _ Ch).
         rewrite (all_true _ _ (fun p => chk_cap_of_G _ s1 p (ci_allow _ C1) G')).
@@ -160,11 +162,10 @@ Section Run.
         destruct (call_auths cl); [congruence|reflexivity].
       + constructor; cbn [n_prev n_ghost tk w_hist]; auto. exact (vagree_observe c univ s1).
     - eexists. split.
-      + unfold c02_item. f_equal.
-        rewrite advance_keeps_extras_fail, andb_true_r.
-        rewrite (c02_checks_ext univ _ _ _ _ K1 (vagree_observe c univ s) _ _ _ Wf).
+      + unfold c02_item. f_equal. rewrite CM. cbn [andb].
+        rewrite (c02_checks_ext univ _ _ _ _ K1 (vagree_observe c univ s) _ _ _ _ Wf).
         unfold c02_checks. cbn [ghost_step].
-        rewrite (all_true (chk_debit (state_view s) (state_view s) cl Fail)).
+        rewrite (all_true (chk_debit (is_rwa c) (state_view s) (state_view s) cl Fail)).
         2:{ intros a. unfold chk_debit. rewrite Z.ltb_irrefl. reflexivity. }
         rewrite (all_true (chk_change (state_view s) (state_view s) cl Fail)).
         2:{ intros p. unfold chk_change. rewrite same_al_refl_view; auto. }
@@ -180,8 +181,8 @@ Section Run.
   Qed.
 
   Lemma c02_from_model cs : forall m s i,
-    K m s -> forallb (fun cl => forallb (fun a => mem a univ) (call_addrs2 cl)) cs = true ->
-    c02_from univ m (model_items c univ s cs) i = 0%N.
+    K m s -> forallb (fun cl => forallb (fun a => mem a univ) (call_addrs_all cl)) cs = true ->
+    c02_from (is_rwa c) univ m (model_items c univ s cs) i = 0%N.
   Proof.
     induction cs as [|cl r IH]; intros m s i Km Wf; cbn [model_items c02_from]; auto.
     cbn [forallb] in Wf. apply andb_true_iff in Wf. destruct Wf as [W1 W2].
@@ -198,8 +199,9 @@ Theorem check_accepts_model : forall c univ start cs,
   check (model_trace c univ start cs) = (0%N, 0%N, 0%N).
 Proof.
   intros c univ start cs Wc Wf. unfold check. rewrite diff_model.
-  unfold wf_calls in Wf. apply andb_true_iff in Wf. destruct Wf as [Wn Wa].
-  unfold c02_monitor, model_trace. cbn [t_univ t_start t_items].
+  unfold wf_calls, wf_calls_all in Wf. apply andb_true_iff in Wf. destruct Wf as [Wn Wa].
+  unfold c02_monitor, model_trace. cbn [t_univ t_start t_items t_init t_cfg].
+  rewrite (genesis_observe c univ start Wn).
   rewrite (c02_from_model c univ); auto.
   - unfold wf_host. apply Z.leb_le. exact Wc.
   - apply K_init.
